@@ -203,6 +203,12 @@ func checkC06(p *Program, r *Report) {
 				inst := f.Name() + "|" + kx + " comparison"
 				ff := reach[[2]bool{false, false}][b]
 				other := reach[[2]bool{true, false}][b] || reach[[2]bool{false, true}][b] || reach[[2]bool{true, true}][b]
+				// numeric readings are compared only when BOTH operands are numbers: the is-number predicate of each operand holds on the way
+				if !bothNumeric(m, f, b) {
+					r.Fail("C06.R4", inst+"|both numeric", p.Pos(bo.Pos()), "numeric readings are compared on a path where the is-number test did not hold for both operands: a container or string compared with a number goes through its zero reading (0 == [] would be true)")
+				} else {
+					r.OK("C06.R4", inst+"|both numeric", p.Pos(bo.Pos()), "both operands passed the is-number test")
+				}
 				switch {
 				case kx != ky:
 					r.Fail("C06.R4", inst, p.Pos(bo.Pos()), "the two sides are read differently ("+kx+" vs "+ky+")")
@@ -763,4 +769,38 @@ func readingOf(m *vmModel, f *ssa.Function, v ssa.Value) bool {
 func interfaceOfOperand(v ssa.Value) bool {
 	c, ok := v.(*ssa.Call)
 	return ok && reflectMethod(c) == "Interface"
+}
+
+// bothNumeric: block b is dominated by the true edges of two calls of one kind-set predicate (is-number) on two different values.
+func bothNumeric(m *vmModel, f *ssa.Function, b *ssa.BasicBlock) bool {
+	seen := map[ssa.Value]bool{}
+	var pred *ssa.Function
+	for d := b; d != nil && d.Idom() != nil; d = d.Idom() {
+		id := d.Idom()
+		iff, ok := id.Instrs[len(id.Instrs)-1].(*ssa.If)
+		if !ok {
+			continue
+		}
+		c, ok := iff.Cond.(*ssa.Call)
+		if !ok || len(c.Call.Args) != 1 {
+			continue
+		}
+		callee := staticCallee(c)
+		if callee == nil || callee.Pkg != m.sp {
+			continue
+		}
+		ks := kindSetFunc(callee)
+		if len(ks) < 8 || !ks[6] || !ks[14] { // a predicate over the numeric kinds (Int64 and Float64 among them)
+			continue
+		}
+		if !edgeOnly(id, 0, d) {
+			continue
+		}
+		if pred != nil && pred != callee {
+			continue
+		}
+		pred = callee
+		seen[c.Call.Args[0]] = true
+	}
+	return len(seen) >= 2
 }
